@@ -51,7 +51,7 @@ class C18(Prop):
                    'the row function is a pure marker supplied by the harness']
     REAL_VS_STUB = {'real': ['dataflows/processors/parallelize.py (all of it)', 'Flow / iterable_loader / driver'],
                     'stub': ['multiprocessing.Queue/Process', 'threading.Thread/Lock/Event', 'queue.Queue', 'os.cpu_count/getpid', 'time (virtual clock)']}
-    PROBES = ['line-preempt-run', 'clock-jumped', 'source-stalled', 'rowfunc-stalled', 'consumer-stalled', 'bypass-resource', 'default-num-processors',
+    PROBES = ['module-constant-scaled-down', 'line-preempt-run', 'clock-jumped', 'source-stalled', 'rowfunc-stalled', 'consumer-stalled', 'bypass-resource', 'default-num-processors',
               'empty-stream', 'nothing-selected', 'first-selected-late', 'workers>rows', 'two-parallelize-stages', 'rowfunc-raised', 'slow-worker-exit'] + ['strategy:' + x for x in sorted(set(STRATEGIES))]
     TIERS = {'quick': dict(runs=4000, wall=100, run_wall=300),
              'thorough': dict(runs=150000, wall=1700, run_wall=600)}
@@ -83,6 +83,8 @@ class C18(Prop):
         if rng.random() < 0.12 and n:
             # the row function fails on some rows: documented to be reported and the row passed on - it must still be delivered exactly once
             sc['func_raises'] = sorted(set(rng.randrange(n) for _ in range(rng.choice([1, 2]))))
+        if rng.random() < 0.5:
+            sc['knob'] = rng.choice([1, 2, 3])
         if rng.random() < 0.12:
             sc['two_stage'] = {'workers': rng.choice([1, 2]), 'predicate': rng.choice(['none', 'some', 'late'])}
         if rng.random() < 0.15:
@@ -103,6 +105,14 @@ class C18(Prop):
                     step_cap=(400 * (n + nw) + 4000 if not sc.get('line') else 4000 * (n + nw) + 40000) * (3 if sc.get('two_stage') else 1),
                     params={'est_steps': est, 'starve_target': sc.get('starve_target', 'worker'), 'exit_delays': sc.get('exit_delays') or {}})
         S.install(s, par, cpu_count=sc.get('cpu_count'), line_preempt=bool(sc.get('line')))
+        # tuning knobs: module-level integer constants of parallelize.py (queue bounds, batch sizes, back-pressure limits a
+        # change may introduce) are scaled down, so that correctness never silently depends on one generous setting
+        if sc.get('knob') is not None:
+            for k, v in list(vars(par).items()):
+                if k.isupper() and isinstance(v, int) and not isinstance(v, bool) and v > sc['knob']:
+                    setattr(par, k, sc['knob'])
+                    ctx.probe('module-constant-scaled-down')
+                    ctx.log('knob', k, v, sc['knob'])
         applied = {}
         src_st = sc.get('source_stalls') or {}
         fn_st = sc.get('func_stalls') or {}
@@ -223,6 +233,13 @@ class C18(Prop):
             err = ('stepcap', str(e))
         except Exception as e:  # noqa
             err = ('raised', '%s: %s' % (type(e).__name__, str(e)[:300]), getattr(getattr(e, 'cause', None), '__class__', type(e)).__name__)
+            # the scheduler's verdict reaches main inside the program under test, which wraps it like any other exception
+            if isinstance(s.failed, S.Deadlock):
+                err = ('deadlock', str(s.failed))
+            elif isinstance(s.failed, S.StepCap):
+                err = ('stepcap', str(s.failed))
+        except S._Abort:
+            err = ('deadlock', str(s.failed)) if isinstance(s.failed, S.Deadlock) else ('stepcap', str(s.failed))
         finally:
             sys.settrace(None)
         ctx.extra['schedule'] = list(s.trace)
@@ -245,6 +262,9 @@ class C18(Prop):
             if err[0] == 'stepcap':
                 from ..core.ctx import HarnessError
                 raise HarnessError('step cap hit without a detected deadlock (bounded-liveness budget exceeded): ' + err[1])
+            if 'unsimulated primitive' in err[1] or err[2] == 'HarnessError':
+                from ..core.ctx import HarnessError
+                raise HarnessError('the code under test used a concurrency primitive the simulator has no twin for (no verdict): ' + err[1])
             ctx.violation('raised', err[2], 'the run raised %s' % err[1])
         leaked = s.leaked()
         if leaked:
